@@ -98,21 +98,40 @@ Proof.
 Qed.
 Print Assumptions C11_three_part_range_old_reading_refuted.
 
-(* User functions with algorithm sections.  For a function body made of assignment and
-   for-statements (loop bodies = lists of assignments that may read each other's results), if the
-   generator produces the assignment list l (loops unrolled iteration-major, index bound per
-   iteration: `unroll`) then after get_function's sequential substitution the symbolic value of
-   EVERY function variable, evaluated at the input point, is the value the Modelica sequential
-   execution `exec` leaves in that variable.
-   _partial: if-statements (SIf) are in the executable model and in the correspondence, but not
-   in this theorem (stmt_ok excludes them); the call site (lhs_k - out_k) is in the model only. *)
-Theorem C11_function_partial (F : positive -> Qc -> Qc) (T : table) (sq : bool) (body : list stmt) (l : list cassign)
+(* User functions with algorithm sections: assignment, if/elseif/else and for-statements.
+   sq says which exitIfStatement the tree has (probed on every run; HEAD: true).  For a body whose
+   statements are well-formed (stmt_ok: program variables only; loop bodies are lists of
+   assignments that may read each other's results; if-statements - only for the repaired
+   translation sq = true - whose branches assign subsets of the variables of the first branch),
+   if the generator produces the assignment list l (loops unrolled iteration-major with the index
+   bound per iteration; if-statements: every branch executed on its own by sequential
+   substitution, merged with if_else on the pre-if conditions, assigned to fresh temporaries and
+   then simultaneously to the variables), then after get_function's sequential substitution the
+   symbolic value of EVERY program variable, evaluated at the input point, is the value the
+   Modelica sequential execution `exec` leaves in that variable.
+   Not covered: nested statements inside if/for bodies (not in the model; pymoca does not support
+   them inside for-statements either). *)
+Theorem C11_function (F : positive -> Qc -> Qc) (T : table) (sq : bool) (body : list stmt) (l : list cassign)
         (rm rm' : menv) (rc : cenv) :
-  table_ok T = true -> Forall stmt_ok body -> init_rel rm rc ->
+  table_ok T = true -> Forall (stmt_ok sq) body -> init_rel rm rc ->
   tr_stmts T sq body = Ok l -> exec F body rm = Some rm' ->
-  forall x, exists q, m_sc rm' x = VNum q /\ ca_eval F (apply_assigns l sigma0 x) rc = Some q.
+  forall x, small x -> exists q, m_sc rm' x = VNum q /\ ca_eval F (apply_assigns l sigma0 x) rc = Some q.
 Proof. intros HT Hok Hi Htr Hex. exact (function_sound F T HT sq body l rm rc rm' Hok Hi Htr Hex). Qed.
-Print Assumptions C11_function_partial.
+Print Assumptions C11_function.
+
+(* The call site.  For `(y1, .., yk) = f(args)` (k may be smaller than the number of outputs:
+   the remaining outputs are discarded): if the generator produces the residual r for the call
+   equation, then wherever the Modelica meaning is defined (arguments evaluate, the algorithm
+   section executes) r is defined and its j-th entry is y_j minus the j-th output of the
+   sequential execution of f on the argument values.  Composes C11_expr (arguments) with
+   C11_function (body). *)
+Theorem C11_call_residual (F : positive -> Qc -> Qc) (T : table) (sq : bool) (rm : menv) (rc : cenv)
+        (lhs : list positive) (f : func) (args : list expr) (r : option (list (option Qc))) (ms : list (option Qc)) :
+  table_ok T = true -> env_rel rm rc -> func_ok sq f ->
+  ca_call_res F T sq (lhs, f, args) rc = Ok r -> m_call_res F (lhs, f, args) rm = Some ms ->
+  exists cs, r = Some cs /\ Forall2 agrees ms cs.
+Proof. intros HT HE Hf. exact (call_sound F T HT sq rm rc HE lhs f args r ms Hf). Qed.
+Print Assumptions C11_call_residual.
 
 (* the order of the unrolled assignments is what the theorem is about: for
    `for i in 1:2 loop a := a + i*b; b := a - b; end for` from a = b = 1 the sequential result is
@@ -159,6 +178,11 @@ Theorem C11_function_if_repaired_witness :
   end.
 Proof. exact ifdep_repaired. Qed.
 Print Assumptions C11_function_if_repaired_witness.
+
+(* non-vacuity: the witness if-statement satisfies the hypothesis of C11_function for sq = true *)
+Example C11_function_if_example : stmt_ok true ifdep_stmt.
+Proof. exact ifdep_ok. Qed.
+Print Assumptions C11_function_if_example.
 
 (* Array equations (vectors, matrices, slices A[lo:hi, k], A[:, k], A[k, :], v[lo:hi], + - .*,
    scalar * array, matrix product, transpose): if the generator produces the residual graph c for
